@@ -172,6 +172,31 @@ def gen_docs(prop, seed, n, profile="F", replay=None, max_depth=3, features=None
                 branches = [{"$ref": "#/definitions/Base"}, ov]
                 out.append(("co%02d" % (2 * j + order), {"definitions": {"Base": base, "Closed": {"allOf": branches[::-1] if order else branches}}},
                             ["closing_overlay", "allof_ref", "object"]))
+    if profile in ("F", "C05"):
+        # OPTIONAL containers that may not be empty when present: omitted must stay omitted
+        oc = {"type": "object", "required": ["name"], "properties": {
+            "name": {"type": "string"},
+            "labels": {"type": "array", "uniqueItems": True, "items": {"type": "string"}, "minItems": 1},
+            "codes": {"type": "array", "uniqueItems": True, "items": {"type": "integer"}, "minItems": 2, "maxItems": 4},
+            "list": {"type": "array", "items": {"type": "string"}, "minItems": 1},
+            "grid": {"type": "array", "items": {"type": "array", "items": {"type": "integer"}, "minItems": 1}, "minItems": 1},
+            "attrs": {"type": "object", "additionalProperties": {"type": "string"}, "minProperties": 1}}}
+        out.append(("oc00", {"definitions": {"Holder": oc}}, ["optional_nonempty_container", "set", "object"]))
+        out.append(("oc01", {"definitions": {"Holder": {"oneOf": [
+            dict(oc, properties=dict(oc["properties"], kind={"type": "string", "enum": ["a"]}), required=["name", "kind"]),
+            {"type": "object", "properties": {"kind": {"type": "string", "enum": ["b"]}}, "required": ["kind"]}]}}},
+            ["optional_nonempty_container", "oneof_internal", "set"]))
+    if profile in ("F", "C05"):
+        # names that are required without a schema of their own, next to every form of additionalProperties
+        for j, ap in enumerate([None, True, {"type": "string"}, {"type": "integer"}]):
+            for props in ({}, {"id": {"type": "integer"}}):
+                d_ = {"type": "object", "required": ["primary"] + (["id"] if props else []), "properties": dict(props)}
+                if not props:
+                    del d_["properties"]
+                if ap is not None:
+                    d_["additionalProperties"] = ap
+                out.append(("mk%02d" % (2 * j + (1 if props else 0)), {"definitions": {"Labels": d_}},
+                            ["required_without_schema", "object", "map" if isinstance(ap, dict) else "struct"]))
     if prop == "C03":
         # chains of $ref with sibling keywords (typify merges the siblings; a draft-07 validator ignores them, so
         # for open objects every instance below is valid and each member is declared somewhere along the chain)
